@@ -11,7 +11,7 @@ from ..publicops import REDUCTIONS, ROW_OPS, SELECT_OPS, approx_equal, run_op
 PID = "C06"
 MODULES = ["GroupbyVerif.Props.C06"]
 RULE = ("seeded random datasets with nulls at any subset of rows and in any key position of 1-3 keys (float/str/datetime/categorical key classes), "
-        "<= 14 rows, value classes f64 i64 M8[ns] x every operation (11 reductions, their transform=True forms, cumulative, rolling, shift/diff, EMA "
+        "<= 14 rows, single non-categorical keys also as a two-chunk arrow key (chunk-local codes), value classes f64 i64 M8[ns] x every operation (11 reductions, their transform=True forms, cumulative, rolling, shift/diff, EMA "
         "plain and timed, head/tail/nth, groups, group_nearby_members); relations: (a) deleting the null-key rows leaves every label's / every other "
         "row's result unchanged, (b) no label is created for them, (c) in row-aligned outputs they carry one constant null/neutral marker that does "
         "not change when the other rows' values change; non-trivial = >= 1 null-key row and >= 2 others; distinct = distinct (dataset, op)")
@@ -50,7 +50,11 @@ def gen_cases(tier, rng):
         if ds["vdt"] == "i64" or base == "nearby":
             ds["vals"] = [1 if v is None else v for v in ds["vals"]]
         ds["sort"] = True
-        yield {**ds, "op": op, "window": rng.randint(1, 3), "n": rng.choice([-2, -1, 0, 1, 2])}
+        kchunks = None
+        if nkeys == 1 and classes[0] != "categorical" and len(ds["vals"]) >= 2 and rng.random() < 0.35:
+            # the same rows behind a two-chunk arrow key: chunk-local codes, unified lazily by the row-aligned operations
+            kchunks = rng.randint(1, len(ds["vals"]) - 1)
+        yield {**ds, "op": op, "window": rng.randint(1, 3), "n": rng.choice([-2, -1, 0, 1, 2]), "kchunks": kchunks}
 
 
 def evaluate(case, drv):
@@ -63,9 +67,9 @@ def evaluate(case, drv):
     op = case["op"]
     transform = op.startswith("T:")
     base = op[2:] if transform else op
-    key = repr((case["keys"], case["key_classes"], case["vals"], case["vdt"], op, case["window"], case["n"]))
+    key = repr((case["keys"], case["key_classes"], case["vals"], case["vdt"], op, case["window"], case["n"], case.get("kchunks")))
     pos = {}
-    res = dict(tags=[f"op:{op}", f"vdt:{case['vdt']}", f"nkeys:{len(case['keys'])}", "has-null" if null_rows else "no-null"]
+    res = dict(tags=[f"op:{op}", f"vdt:{case['vdt']}", f"nkeys:{len(case['keys'])}", "has-null" if null_rows else "no-null", "arrow-chunked-key" if case.get("kchunks") else "flat-key"]
                + [f"nullpos:{j}" for j, col in enumerate(case["keys"]) if any(v is None for v in col)],
                size=n, key=key, nontrivial=len(null_rows) >= 1 and len(keep) >= 2, bucket=(op, case["vdt"], len(case["keys"])))
 
@@ -76,6 +80,11 @@ def evaluate(case, drv):
     def run(rows, overwrite=False):
         sub = {**case, "keys": [[col[i] for i in rows] for col in case["keys"]], "vals": [case["vals"][i] for i in rows]}
         keys = build_keys(sub)
+        if case.get("kchunks"):
+            import pyarrow as pa
+            cut = sum(1 for i in rows if i < case["kchunks"])
+            whole = pa.array(keys, from_pandas=True)
+            keys = pa.chunked_array([c for c in (whole.slice(0, cut), whole.slice(cut)) if len(c)] or [whole], type=whole.type)
         vals = list(sub["vals"])
         if overwrite:
             # change the values of all rows whose key is NOT null (used to test the constancy of the null-key marker)
@@ -161,10 +170,15 @@ def evaluate(case, drv):
 
 def shrink_candidates(case):
     n = len(case["vals"])
+    kc = case.get("kchunks")
     for i in range(n):
         if n <= 1:
             break
-        yield {**case, "keys": [col[:i] + col[i + 1:] for col in case["keys"]], "vals": case["vals"][:i] + case["vals"][i + 1:]}
+        nk = None if not kc else (kc - 1 if i < kc else kc)
+        yield {**case, "keys": [col[:i] + col[i + 1:] for col in case["keys"]], "vals": case["vals"][:i] + case["vals"][i + 1:],
+               "kchunks": nk if nk and 0 < nk < n - 1 else None}
+    if kc:
+        yield {**case, "kchunks": None}
     if len(case["keys"]) > 1:
         for j in range(len(case["keys"])):
             yield {**case, "keys": case["keys"][:j] + case["keys"][j + 1:], "key_classes": case["key_classes"][:j] + case["key_classes"][j + 1:]}
